@@ -30,7 +30,8 @@ META = {
         ' Also: Tract.parse feeds TractParser the un-preprocessed text (re-parse with clean_qq off is not contaminated), clean_qq lock-down, chain family inclusion.'
         " Round 7: the match the engine reports stops in front of '.', ';', ','; every spelling the direction / quarter sub-patterns accept is accepted by the look-ahead as the start of the next aliquot."
         " Round 8: scoped inline flags are modelled; the look-ahead is checked in both cases; the base scrubbers stop in front of '.', ';', ',' for every spelling alike."
-        ' Round 9: scrub_aliquots returns only after half_plus_q and the intervener remover ran.'),
+        ' Round 9: scrub_aliquots returns only after half_plus_q and the intervener remover ran.'
+        ' Round 10: the look-ahead that ends every aliquot scrubber accepts each element separator (comma, semicolon, line break, blank) and the end of text.'),
     'families': ['RX-LANG', 'TBL', 'FIXPOINT', 'ORDER', 'STRIPSET'],
 }
 
@@ -173,6 +174,28 @@ def lookahead_covers_spellings(ctx):
                   f"yields no QQs ({len(miss)} of {len(words)} spellings)" if miss else '',
                   key=f"SIB|aqwb_lkahead|{name}", where='pytrs/parser/rgxlib/aliquots.py')
     ctx.floor('direction / quarter sub-patterns compared with the look-ahead', n, 6)
+
+
+def lookahead_accepts_separators(ctx):
+    """The same look-ahead also decides whether a raw aliquot ('NE/4') that is
+    followed by an element separator is normalised at all.  The separators of
+    a tract description (comma, semicolon, line break, blank) and the end of
+    the text must each satisfy it; an aliquot in front of a separator the
+    look-ahead rejects stays raw, the extraction loops never see it and it is
+    lost ('NE/4; Lot 1' -> only the lot)."""
+    from .. import rx as _rx
+    env = ctx.fold.module_env('pytrs.parser.rgxlib.aliquots')
+    la = env.get('aqwb_lkahead')
+    if not isinstance(la, str):
+        ctx.undecided('SIB', 'aqwb_lkahead accepts every element separator', 'aqwb_lkahead does not fold to a string')
+        return
+    L = _rx.Lang(la, re.I)
+    for sep, what in ((',', 'a comma'), (';', 'a semicolon'), ('\n', 'a line break'), (' ', 'a blank'), ('', 'the end of the text')):
+        ctx.check(L.matches_at(sep + ('Lot 1' if sep else ''), 0), 'SIB', f"aqwb_lkahead accepts {what} after an aliquot",
+                  detail_bad=f"the look-ahead that ends every aliquot scrubber does not accept {what}: the raw aliquot in "
+                             f"'NE/4{sep}Lot 1' is not normalised to NE¼, the extraction loops of TractParser.parse never see it, "
+                             f"and the element is lost from the tract",
+                  key=f"SIB|aqwb_lkahead|separator|{sep!r}", where='pytrs/parser/rgxlib/aliquots.py')
 
 
 def _cut_length_from_match(ctx):
@@ -386,6 +409,7 @@ def _joiners(ctx):
     # a bare quarter directly before an already clean component is completed too
     half_plus_q_contexts(ctx, ('NE¼', 'NW¼', 'SE¼', 'SW¼', 'N½', 'S½', 'E½', 'W½', ' of', ', less'))
     half_plus_q_contexts(ctx, ELEMENT_SEPARATORS)
+    ctx.attempt(lookahead_accepts_separators)
     for s in ('NE', 'NENW', ' NE', 'of NE'):
         ctx.check(not Lh.search(s), 'RX-LANG-NEG', f"half_plus_q_regex needs a leading half: {s!r}",
                   detail_bad=f"a bare quarter {s!r} is treated as an aliquot without clean_qq",
